@@ -245,4 +245,143 @@ Proof.
   destruct (peek_at s (pos t1)); discriminate.
 Qed.
 
+(** * Block comments *)
+
+Lemma block_comment_text : forall f t w0 cd rd t' tok,
+  le_L s t ->
+  block_comment s f t w0 cd rd = Ok (t', tok) ->
+  exists w1 text,
+    tok = MComment CBlock (mstart t) (pos t') w0 w1 text [] /\
+    text = slice s (start t) (start t + length text) /\
+    start t + length text + 2 <= pos t' /\
+    slice s (pos t' - 2) (pos t') = [37; 125]%N.
+Proof.
+  induction f as [|f IH]; intros t w0 cd rd t' tok (H1 & H2) H; [discriminate|].
+  cbn [block_comment] in H.
+  destruct (find_first chunk_tail (rest s (pos t))) as [[k [[ce w1] m]]|] eqn:E; [|discriminate].
+  apply find_first_spec in E as (Hk & Hc).
+  pose proof (chunk_tail_len _ _ _ _ Hc) as Hm. pose proof (chunk_tail_last _ _ _ _ Hc) as Hlast.
+  rewrite skipn_length, rest_len in Hm. rewrite rest_len in Hk.
+  assert (Hrec : forall cd' rd',
+            block_comment s f (set_pos t (pos t + k + m)) w0 cd' rd' = Ok (t', tok) ->
+            exists w1 text,
+              tok = MComment CBlock (mstart t) (pos t') w0 w1 text [] /\
+              text = slice s (start t) (start t + length text) /\
+              start t + length text + 2 <= pos t' /\
+              slice s (pos t' - 2) (pos t') = [37; 125]%N).
+  { intros cd' rd' Hc'. eapply IH in Hc'; [|unfold le_L; st_simpl; lia]. st_simpl. exact Hc'. }
+  destruct ce; try (apply Hrec in H; exact H).
+  destruct (negb (rd =? 0)); [apply Hrec in H; exact H|].
+  destruct (cd =? 1); [|apply Hrec in H; exact H].
+  injection H as <- <-. st_simpl.
+  exists w1, (sub s (start t) (pos t + k)).
+  rewrite sub_slice, slice_length by lia.
+  replace (start t + (pos t + k - start t)) with (pos t + k) by lia.
+  repeat split; try lia.
+  rewrite skipn_skipn, firstn_skipn_rest in Hlast. etransitivity; [|exact Hlast]. f_equal; lia.
+Qed.
+
+(** * lex_markup: every token is well placed *)
+
+Lemma lex_loop_text : forall f t acc toks,
+  sane s t -> Forall (mtok_ok s) acc ->
+  lex_loop shorthand s f t acc = Ok toks -> Forall (mtok_ok s) toks.
+Proof.
+  induction f as [|f IH]; intros t acc toks (S1 & S2) Hacc H; [discriminate|].
+  cbn [lex_loop] in H. cbv zeta in H.
+  destruct (match_markup (rest s (pos t))) as [m|] eqn:Em.
+  2:{ destruct (pos t =? L); [|discriminate]. inversion H; subst. apply Forall_rev. exact Hacc. }
+  pose proof (match_markup_len _ _ Em) as Hn. rewrite rest_len in Hn.
+  pose proof (match_markup_inv _ _ Em) as Hinv.
+  assert (Hrec : forall t' tok, sane s t' -> mtok_ok s tok ->
+            lex_loop shorthand s f t' (tok :: acc) = Ok toks -> Forall (mtok_ok s) toks).
+  { intros t' tok B1 B2 Hc. eapply IH; [exact B1| |exact Hc]. constructor; assumption. }
+  destruct m as [w0 w1 w2 w3 toff tlen n|w0 n|w0 n|w0 noff nlen|h w0 w1 toff tlen n|w0 w1 toff tlen n|n];
+    simpl in Hn.
+  - (* raw *)
+    apply match_raw_detail in Hinv as (F1 & F2 & F3 & F4 & F5).
+    eapply Hrec; [| |exact H]; [unfold sane; st_simpl; lia|].
+    simpl. rewrite S1. rewrite firstn_rest in F1. rewrite firstn_skipn_rest in F2.
+    split; [exact F1|]. split; [etransitivity; [|exact F2]; f_equal; lia|].
+    exists (pos t + toff). rewrite sub_slice, slice_length by lia.
+    repeat split; try lia. f_equal. lia.
+  - (* comment tag *)
+    pose proof (match_comment_tag_len _ _ Hinv) as Hn'. simpl in Hn'.
+    apply match_comment_tag_first in Hinv. rewrite firstn_rest in Hinv.
+    apply bind_ok in H as ([t2 tok] & Hc & H).
+    pose proof (rspec_inv s _ _ _ _ _ (block_comment_spec s f (set_both (set_mstart t (start t)) (pos t + n)) w0 1 0
+                  ltac:(unfold le_L; st_simpl; lia)) Hc) as (C1 & C2 & C3 & C4 & C5).
+    eapply block_comment_text in Hc; [|unfold le_L; st_simpl; lia]. st_simpl.
+    destruct Hc as (w1 & text & -> & D1 & D2 & D3).
+    eapply Hrec; [exact C1| |exact H].
+    simpl. rewrite S1. split.
+    + exists (pos t + n). repeat split; try lia. exact D1.
+    + repeat split; [exact Hinv|exact D3].
+  - (* output *)
+    pose proof (match_output_len _ _ Hinv) as Hn'. simpl in Hn'.
+    apply match_output_first in Hinv. rewrite firstn_rest in Hinv.
+    apply bind_ok in H as ([[t2 w1] expr] & Hc & H).
+    pose proof (rspec_inv s _ _ _ _ _ (expression_until_spec shorthand s f L_rbrace2
+                  (set_both (set_mstart t (start t)) (pos t + n))
+                  ltac:(unfold sane; st_simpl; lia) ltac:(simpl; lia)) Hc) as (C1 & C2 & C3 & C4).
+    st_simpl. simpl in C1.
+    eapply (expression_until_text _ _ _ _ _ _ (Z.of_nat (pos t + 2))) in Hc;
+      [|unfold sane; st_simpl; lia|st_simpl; lia].
+    destruct Hc as (D1 & D2). simpl in D1, D2.
+    eapply Hrec; [| |exact H]; [unfold sane; st_simpl; lia|].
+    simpl. rewrite C3. st_simpl. rewrite S1. repeat split; assumption.
+  - (* tag *)
+    apply match_tag_first in Hinv as (Hfirst & Hoff). rewrite firstn_rest in Hfirst.
+    destruct (str_eqb _ L_liquid).
+    + apply bind_ok in H as ([t2 tok] & Hc & H).
+      set (t1 := set_both (set_mstart t (start t)) (pos t + noff + nlen)) in *.
+      assert (Hs1 : sane s t1) by (subst t1; unfold sane; st_simpl; lia).
+      pose proof (rspec_inv s _ _ _ _ _ (liquid_tag_spec shorthand s f t1 w0 [] [] Hs1) Hc)
+        as (C1 & C2 & C3 & C4 & C5).
+      eapply (liquid_tag_text f t1 w0 [] [] (pos t + 2)) in Hc; [|exact Hs1|subst t1; simpl; st_simpl; lia].
+      destruct Hc as (w1 & stmts & ws & D1 & D2 & D3). st_simpl. subst tok.
+      eapply Hrec; [exact C1| |exact H].
+      simpl. subst t1. st_simpl. rewrite S1. repeat split; assumption.
+    + apply bind_ok in H as ([[t2 w1] expr] & Hc & H).
+      pose proof (rspec_inv s _ _ _ _ _ (expression_until_spec shorthand s f L_pct_rbrace
+                    (set_both (set_mstart t (start t)) (pos t + noff + nlen))
+                    ltac:(unfold sane; st_simpl; lia) ltac:(simpl; lia)) Hc) as (C1 & C2 & C3 & C4).
+      st_simpl. simpl in C1.
+      eapply (expression_until_text _ _ _ _ _ _ (Z.of_nat (pos t + noff + nlen))) in Hc;
+        [|unfold sane; st_simpl; lia|st_simpl; lia].
+      destruct Hc as (D1 & D2). simpl in D1, D2.
+      eapply Hrec; [| |exact H]; [unfold sane; st_simpl; lia|].
+      simpl. rewrite C3. st_simpl. rewrite S1. split; [exact Hfirst|]. split; [exact D1|].
+      exists (pos t + noff). rewrite sub_slice, slice_length by lia.
+      replace (pos t + noff + (pos t + noff + nlen - (pos t + noff))) with (pos t + noff + nlen) by lia.
+      repeat split; try lia; assumption.
+  - (* {# comment #} *)
+    apply match_comment_detail in Hinv as (F0 & F1 & F2 & F3 & F4 & F5 & F6).
+    eapply Hrec; [| |exact H]; [unfold sane; st_simpl; lia|].
+    simpl. rewrite S1. rewrite repeat_length. rewrite firstn_rest in F1. rewrite firstn_skipn_rest in F2.
+    split.
+    + exists (pos t + toff). rewrite sub_slice, slice_length by lia. repeat split; try lia. f_equal. lia.
+    + split; [lia|]. split; [reflexivity|]. split.
+      * etransitivity; [|exact F1]. f_equal; lia.
+      * etransitivity; [|exact F2]. f_equal; lia.
+  - (* inline comment *)
+    apply match_inline_detail in Hinv as (F1 & F2 & F3 & F4 & F5).
+    eapply Hrec; [| |exact H]; [unfold sane; st_simpl; lia|].
+    simpl. rewrite S1. rewrite firstn_rest in F1. rewrite firstn_skipn_rest in F2.
+    split.
+    + exists (pos t + toff). rewrite sub_slice, slice_length by lia. repeat split; try lia. f_equal. lia.
+    + split; [reflexivity|]. split; [exact F1|]. etransitivity; [|exact F2]. f_equal; lia.
+  - (* content *)
+    eapply Hrec; [| |exact H]; [unfold sane; st_simpl; lia|]. simpl. rewrite S1. reflexivity.
+Qed.
+
 End Text.
+
+(** Every markup token of every successfully scanned source is well placed. *)
+Lemma tokens_ok sh s toks : lex sh s = Ok toks -> Forall (mtok_ok s) toks.
+Proof.
+  intros H. unfold lex, lex_fuel in H. eapply lex_loop_text; [| |exact H].
+  - unfold sane; simpl; lia.
+  - constructor.
+Qed.
+
